@@ -85,11 +85,100 @@ def read_all(opener):
         return "refused", [], type(e).__name__
 
 
+def sources_part(ctx, thorough):
+    """several sources open at the same time: every interleaving of open / read / close steps of two readers"""
+    import itertools
+
+    from flow.record import RecordDescriptor, RecordReader, RecordWriter
+
+    ctx.design("Sources", "MC_Sources.cfg", "three readers x 3 records, every interleaving of open / read / close", actions=("Open", "Read", "Close"), workers=4)
+    if thorough:
+        ctx.sensitivity("Sources", "MC_Sources_dev.cfg", "one decoding context shared by all readers must violate Independent", "Independent", workers=4)
+    tmp = common.scratch("c11src")
+    D = RecordDescriptor("t/src", [("varint", "i"), ("string", "src"), ("bytes", "pad")])
+    DV = RecordDescriptor("t/src", [("varint", "i"), ("string", "src"), ("bytes", "pad")])
+    # every order of the steps o r r r c of reader a and of reader b (each reader's own steps stay in order)
+    steps = {"a": ["open", "read", "read", "read", "close"], "b": ["open", "read", "read", "read", "close"]}
+    scheds = []
+    for pos in itertools.combinations(range(10), 5):
+        ia, ib, s = iter(steps["a"]), iter(steps["b"]), []
+        for k in range(10):
+            s.append(("a", next(ia)) if k in pos else ("b", next(ib)))
+        scheds.append(s)
+    traces, metas = [], []
+    for codec, ext in CODEC_EXT.items():
+        for container in ("stream", "avro"):
+            paths = {}
+            for r in ("a", "b"):
+                fname = f"{r}.{'records' if container == 'stream' else 'avro'}{ext}"
+                url = ("avro://" if container == "avro" and ext else "") + os.path.join(tmp, fname)
+                with RecordWriter(url) as w:
+                    for i in (1, 2, 3):
+                        w.write(DV(i, r, (r.encode() * 400)[: 300 + 50 * i], _generated=gen.GEN))
+                paths[r] = (url, os.path.join(tmp, fname))
+            for naming in ("ext", "neutral", "fileobj"):
+                if naming == "neutral" and container == "avro":
+                    continue
+                sel = scheds if thorough else ctx.rnd.sample(scheds, 40) + scheds[:1] + scheds[-1:]
+                for s in sel:
+                    rd, it, fhs, tr = {}, {}, [], []
+                    for r, op in s:
+                        ev = {"op": op, "r": r, "raised": False, "exc": "none", "src": "-", "i": 0}
+                        try:
+                            if op == "open":
+                                url, p = paths[r]
+                                if naming == "ext":
+                                    rd[r] = RecordReader(url)
+                                elif naming == "neutral":
+                                    np_ = os.path.join(tmp, "neutral_" + r)
+                                    if not os.path.exists(np_):
+                                        with open(np_, "wb") as o, open(p, "rb") as src:
+                                            o.write(src.read())
+                                    rd[r] = RecordReader(np_)
+                                else:
+                                    fh = open(p, "rb")
+                                    fhs.append(fh)
+                                    rd[r] = RecordReader(fileobj=fh)
+                                it[r] = iter(rd[r])
+                            elif op == "read":
+                                x = next(it[r])
+                                ev["src"], ev["i"] = str(x.src), int(x.i)
+                            else:
+                                rd[r].close()
+                        except BaseException as e:  # noqa
+                            if isinstance(e, KeyboardInterrupt):
+                                raise
+                            ev["raised"], ev["exc"] = True, type(e).__name__ + ":" + str(e)[:60]
+                        tr.append(ev)
+                    for fh in fhs:
+                        fh.close()
+                    traces.append(tr)
+                    metas.append((codec, container, naming, " ".join(f"{r}:{op[0]}" for r, op in s)))
+                    ctx.case(("sources",) + metas[-1])
+            for f in os.listdir(tmp):
+                os.remove(os.path.join(tmp, f))
+    path = os.path.join(common.scratch("c11srct"), "traces.json")
+    tlc.write_json(path, traces)
+    r = ctx.tlc("Trace_Sources", "Trace_Sources.cfg", f"{len(traces)} interleavings of two open readers", env={"TRACE_FILE": path}, workers=8)
+    seen = set()
+    for v in r.violations:
+        tid = v["state"].get("tid")
+        if tid is None:
+            raise common.MachineryError(f"cannot attribute counter-example: {v}")
+        if tid in seen:
+            continue
+        seen.add(tid)
+        m = metas[tid - 1]
+        ctx.violation({"check": "sources-" + v["inv"], "codec": m[0], "container": m[1], "naming": m[2]}, {"schedule": m[3], "trace": traces[tid - 1]})
+    ctx.count(len(traces), sum(len(t) for t in traces))
+
+
 def run(tier):
     from flow.record import RecordDescriptor, RecordReader, RecordWriter
 
     ctx = check.Ctx(PROP, tier)
     thorough = tier == "thorough"
+    sources_part(ctx, thorough)
     ctx.design("Detect", "MC_Detect.cfg", "full matrix: 5 codecs x 6 containers x 3 namings x 5 peek lengths", workers=4)
     ctx.sensitivity("Detect", "MC_Detect_shortpeek.cfg", "a first peek shorter than the codec magic breaks 'always recognised'", "AlwaysRecognised", workers=4)
     tmp = common.scratch("c11")
